@@ -190,7 +190,12 @@ func VF_C06_StepMerge(nseg int, dp int, extra int) {
 	sc := vfBuildMerge(nseg, dp, extra)
 	w := sc.st.w
 	before := vfContent(w.root)
+	// a reader of the root the merge is introduced over (it shares that root's bitmaps)
+	heldNow, _ := w.Reader()
+	fpNow := vfFingerprintOf(heldNow)
 	w.introduceMerge(sc.merge, 8)
+	vfSameFingerprint(heldNow, fpNow, "a reader held across the merge introduction")
+	_ = heldNow.Close()
 	var status *mergeTaskIntroStatus
 	select {
 	case status = <-sc.merge.notifyCh:
@@ -325,4 +330,15 @@ func VF_C06_BatchThenMerge(nseg int, dp int, nd int) {
 	vfExpect(r, exp, "after batch then merge introduction")
 	_ = planRoot.Close()
 	_ = r.Close()
+}
+
+// C04 clause of the same step: the reader of the root a merge is introduced over
+// is not disturbed by it (the step above asserts it; registered under C04 with a
+// smaller case set so that C04's own check reports it).
+//
+// vf:harness property=C04 cases=nseg:1;dp:2;extra:0|nseg:2;dp:1..2;extra:0 cases.thorough=nseg:1..2;dp:1..3;extra:0..1 goinline=1 chanslack=8 maxpaths=600000
+// vf:bounds as VF_C06_StepMerge with fewer plan-time shapes
+// vf:assume as VF_C06_StepMerge
+func VF_C04_ReaderAcrossMergeIntroduction(nseg int, dp int, extra int) {
+	VF_C06_StepMerge(nseg, dp, extra)
 }
